@@ -42,6 +42,9 @@ const (
 
 	// Session key length for symmetric encryption after SSL handshake
 	AuthSSLSessionKeyLen = 256
+
+	// authSSLMaxMessageLen bounds one tunnelled TLS message (AUTH_SSL_BUF_SIZE in HTCondor)
+	authSSLMaxMessageLen = 1 << 20
 )
 
 // SSLAuthenticator handles SSL certificate-based authentication following HTCondor's protocol
@@ -655,6 +658,13 @@ func (c *CEDARTLSConnection) receiveMessage(ctx context.Context) ([]byte, error)
 	length, err := msg.GetInt(ctx)
 	if err != nil {
 		return nil, fmt.Errorf("failed to get TLS data length: %w", err)
+	}
+
+	// The length is chosen by the peer, which is not authenticated yet: bound it
+	// before sizing a buffer with it (HTCondor's AUTH_SSL_BUF_SIZE is 1 MiB; a
+	// negative value would panic in make, a huge one would allocate without limit).
+	if length < 0 || length > authSSLMaxMessageLen {
+		return nil, fmt.Errorf("invalid TLS data length %d", length)
 	}
 
 	// HTCondor protocol: receive data bytes third (if length > 0)
